@@ -15,9 +15,9 @@ CLAIMED = {
    technique="Coq proof by invariant over the recursive decoder (LDPC streaming: values, availability, completion) + extracted-model-vs-C correspondence + byte-level oracle on the C",
    ref="3/C01", cat="proof"),
  "C02": dict(
-   text="Machine-checked proof (Coq) for the model of the API layer shared by both RS codecs: after ANY history of of_decode_with_new_symbol calls (any order, duplicates, any 1<=k<=n) decoding is complete iff at least k distinct ESIs were submitted; of_finish_decoding returns OK iff complete afterwards and FAILURE iff fewer than k. The algebraic half (any k rows of the systematic Vandermonde generator invertible, inversion correct) is a named hypothesis of these theorems, exercised on the compiled C by every received subset of small codes, both APIs, both codecs, m=4 and 8, and sampled k up to 200; every RS session is also replayed on the extracted API model and compared (statuses, completion, table, callback ESIs).",
-   note="Trusted: Coq kernel; RSApi.v mirror; hypothesis core_ok (MDS + Gauss-Jordan) not discharged in Coq; extraction, drivers, oracle.",
-   technique="Coq proof by invariant over call histories (API layer) + extracted-model-vs-C correspondence; algebra by exhaustive small-code decoding on the C",
+   text="Machine-checked proof (Coq) for the model of the API layer shared by both RS codecs: after ANY history of of_decode_with_new_symbol calls (any order, duplicates, any 1<=k<=n) decoding is complete iff at least k distinct ESIs were submitted; of_finish_decoding returns OK iff complete afterwards and FAILURE iff fewer than k. MDS half proved for the canonical code (RSSpec/GFField/RSCanon: GF(2)[x]/(p) is a field, a non-zero polynomial of degree < k has fewer than k roots, hence for every k <= n <= 2^m ANY k distinct codeword positions determine the k source elements, m = 4 and 8); the C encoders are tied to that code by C06's model correspondence. That the C decoders' Gauss-Jordan inversion computes this unique preimage remains a named hypothesis of the API theorems (core_ok), exercised on the compiled C by every received subset of small codes, both APIs, both codecs, m=4 and 8, and sampled k up to 200; every RS session is also replayed on the extracted API model and compared (statuses, completion, table, callback ESIs).",
+   note="Trusted: Coq kernel; RSApi.v mirror; RSCanon.v as the definition of the code; hypothesis core_ok (the in-place Gauss-Jordan inversion) not discharged in Coq; extraction, drivers, oracle.",
+   technique="Coq proofs: invariant over call histories (API layer), MDS property of the canonical code over GF(2^m) (polynomial root bound); extracted-model-vs-C correspondence; decoder algebra by exhaustive small-code decoding on the C",
    ref="3/C02", cat="proof"),
  "C03": dict(
    text="No Coq model of the ML finish path exists yet, so this property is currently decided on the compiled C only: after of_finish_decoding, completion is compared (both directions) with an independent GF(2) elimination over the parity-check matrix dumped from the session and the received set; every received subset of five small codes, threshold-centred random sets (exactly k..k+3 symbols), both APIs, several orders of the same set.",
@@ -35,9 +35,9 @@ CLAIMED = {
    technique="Coq proof over a hand-written model using the translator-generated PRNG + extracted-model-vs-C matrix correspondence",
    ref="3/C05"),
  "C06": dict(
-   text="Machine-checked proof (Coq, no axioms) for the model of the LDPC-Staircase (and, same text, 2D parity) repair-symbol builder: for ANY staircase-shaped matrix, after building the repair symbols in increasing ESI order every parity equation sums to zero, source symbols are untouched, and the repair values are the unique ones with that property (any size, any symbol group). The Reed-Solomon half (product by the systematic generator from the Vandermonde matrix on 0,1,a,a^2,... over x^4+x+1 / x^8+x^4+x^3+x^2+1, byte compatibility of the two codecs) is decided on the compiled C by an independent python implementation of the canonical generator: all (k,n) of GF(2^4) in thorough, boundary and random shapes of GF(2^8) on both codecs; plus NULL output slots, dirty caller buffers, repeated builds, decreasing ESI order, unchanged sources.",
-   note="Trusted: Coq kernel; LdpcEnc.v mirror (staircase shape checked on every dumped matrix); python canonical generator; drv_enc.c. RS half has no theorem yet.",
-   technique="Coq proof (LDPC encoder) + independent canonical-generator oracle (RS) on the compiled C",
+   text="Machine-checked proof (Coq, no axioms) for the model of the LDPC-Staircase (and, same text, 2D parity) repair-symbol builder: for ANY staircase-shaped matrix, after building the repair symbols in increasing ESI order every parity equation sums to zero, source symbols are untouched, and the repair values are the unique ones with that property (any size, any symbol group). Reed-Solomon half: the symbol-level model RSEnc.v multiplies by the canonical generator G of RSCanon.v; proved for every k <= 2^m over x^4+x+1 / x^8+x^4+x^3+x^2+1: G is systematic, (row j of G) x V_k = (1, x_j, ..., x_j^(k-1)) on the points 0,1,a,a^2,... and G's rows are the only vectors with that property (G = V_n V_k^-1). The compiled encoders of both codecs (hence their byte compatibility) are compared with the extracted model on every request, and an independent python Gauss-Jordan construction cross-checks the model: all (k,n) of GF(2^4) in thorough, boundary and random shapes of GF(2^8) on both codecs; plus NULL output slots, dirty caller buffers, repeated builds, decreasing ESI order, unchanged sources.",
+   note="Trusted: Coq kernel + vm_compute sweeps (field axioms); LdpcEnc.v mirror (staircase shape checked on every dumped matrix); RSEnc.v/RSCanon.v spec; extraction; drv_enc.c. The C's own generator construction (invert_vdm, matmul) is not modelled, its output is compared.",
+   technique="Coq proofs (LDPC encoder model; RS canonical generator: field axioms by sweep, Lagrange/Vandermonde uniqueness) + extracted-model-vs-C correspondence on encoder output",
    ref="3/C06"),
  "C07": dict(
    text="Exploration only: every generated life cycle of the three codecs (limits included: k up to 200/300, both APIs, callbacks, both decoder roles, early release) runs under ASan/UBSan with each application buffer in its own exact-size heap block, and every buffer handed to the library is compared before/after. No theorem: pointer-level memory safety of compiled C cannot be stated in a Gallina model without a C semantics (none is installed); the index-range/ownership ledger model of DESIGN 3/C07 has not been built.",
